@@ -1053,6 +1053,16 @@ def crossed_arguments_rule(chk, repo, clause, mods):
             pn = set(callee.param_names())
             mm = [(p_, a) for p_, a in bind.b3_mismatches(site)
                   if isinstance(site.binding.get(a), ast.Name) and site.binding[a].id != a and site.binding[a].id in pn]
+            # ... likewise for attributes of one object handed over by position: `obj.focal_length` for parameter `diameter`
+            # while `focal_length` is filled from something that is not called that
+            attr_of = {p_: v_.attr for p_, v_ in site.binding.items() if isinstance(v_, ast.Attribute) and p_ not in (node.keywords and
+                       {k.arg for k in node.keywords} or set())}
+            for p_, at in attr_of.items():
+                if at != p_ and at in pn and at.lstrip('_') != p_.lstrip('_'):
+                    other = site.binding.get(at)
+                    o_name = other.attr if isinstance(other, ast.Attribute) else (other.id if isinstance(other, ast.Name) else None)
+                    if other is None or (o_name is not None and o_name.lstrip('_') != at.lstrip('_')):
+                        mm.append((p_, at))
             if mm and len(mm) == 2 and {mm[0][0], mm[0][1]} == {mm[1][0], mm[1][1]}:
                 # two arguments exchanged: harmless exactly when the callee is symmetric in the two parameters
                 a_, b_ = mm[0]
